@@ -66,8 +66,13 @@ def programs_for(pid, tier, seed):
     quick = tier == 'quick'
     out = []
 
-    def g(name, menu, cap=None, **kw):
-        progs, res, total = gen.run_gen(name, menu, seed=seed, cap=cap, **kw)
+    def g(name, menu, cap=None, keep=None, **kw):
+        progs, res, total = gen.run_gen(name, menu, seed=seed, cap=None, **kw)
+        if keep:
+            progs = [p for p in progs if keep(p)]
+        if cap and len(progs) > cap:
+            progs.sort(key=lambda p: json.dumps(p, sort_keys=True))
+            progs = random.Random(seed).sample(progs, cap)
         out.append({'name': name, 'programs': progs, 'generated': total, 'tlc_states': res.distinct, 'tlc_generated': res.generated,
                     'mode': 'simulate' if kw.get('simulate') else 'exhaustive'})
 
@@ -81,14 +86,19 @@ def programs_for(pid, tier, seed):
     # (2b) exhaustive, implicit rule across nesting: one qubit, every channel kind, no explicit relation; a sub-circuit's
     #      channels are what its operations occupy (ALL bridges the specific channels)
     one = [gen.leaf('Wait', [0], [[0, ch]], ['fixed', 4]) for ch in ('ALL', 'MICROWAVE', 'FLUX')] + meas((0,), tags=('',))
-    g('chan', one, acts=('NewCircuit', 'AddOp', 'AddSub'), linktypes=(), max_circs=2, max_objs=7, max_steps=6 if quick else 7,
-      cap=500 if quick else 5000, one_in=4 if quick else 2, workers=4, min_emit=5)
+    def sub_then_add(p):
+        k = [i for i, s in enumerate(p) if s['a'] == 'AddSub']
+        return bool(k) and any(s['a'] == 'AddOp' and s['c'] == p[k[0]]['c'] for s in p[k[0] + 1:]) and \
+            sum(1 for s in p[:k[0]] if s['a'] == 'AddOp' and s['c'] == p[k[0]]['s']) >= 2
+    g('chan', one, acts=('NewCircuit', 'AddOp', 'AddSub'), linktypes=(), max_circs=2, max_objs=9, max_steps=6 if quick else 7,
+      cap=1500 if quick else 20000, workers=4, min_emit=6, keep=sub_then_add)
     # (2c) exhaustive, relations that refer to an operation nested inside an already added sub-circuit (the library warns
     #      and falls back to the implicit rule; the listing must stay causal with respect to what operations report)
     g('deep', [gen.leaf('Wait', [0], [[0, 'ALL']], ['fixed', 4]), gen.leaf('Rx180', [2], [[2, 'MICROWAVE']], ['global', 'MW'])]
       + ([] if quick else [gen.leaf('Wait', [1], [[1, 'MICROWAVE']], ['fixed', 12])]),
-      acts=('NewCircuit', 'AddOp', 'AddSub'), linktypes=('FB',) if quick else ('FB', 'JS'), max_circs=2, max_objs=7, max_steps=6, deep=True,
-      cap=500 if quick else 5000, one_in=4, workers=4, min_emit=5)
+      acts=('NewCircuit', 'AddOp', 'AddSub'), linktypes=('FB',) if quick else ('FB', 'JS'), max_circs=2, max_objs=9, max_steps=6, deep=True,
+      cap=1200 if quick else 8000, workers=4, min_emit=6,
+      keep=lambda p: any(s['a'] == 'AddSub' for s in p) and p[-1]['a'] == 'AddOp' and p[-1]['link']['k'] == 'one')
     # (3) simulation: long programs over the full alphabet, overrides, registry durations, copies, unrolling
     full = waits(Q3, chans=('ALL', 'MICROWAVE', 'FLUX'), durs=(0, 2, 6), reg=True) + gates(Q3) + meas(Q3) + two(Q3)
     g('sim', full, reps=[('fixed', 1), ('fixed', 2), ('fixed', 3), ('reg', 'r1')], configs=(gen.DEFAULT_CFG, CFG_A, CFG_B),
